@@ -86,12 +86,12 @@ def _c05_row(ctx, muzzle, p, tc):
 
 
 def _cfg_spin(tier):
-    return [{'case': c} for c in ('right', 'left', 'no_twist', 'no_length', 'no_diameter', 'vacuum')]
+    return [{'case': c} for c in ('right', 'left', 'no_twist', 'no_length', 'no_diameter', 'vacuum', 'powder')]
 
 
 @harness('C05.spin', 'C05', configs=_cfg_spin, functions=FUNCS + ['py_ballisticcalc.trajectory_calc._trajectory_calc.TrajectoryCalc._init_trajectory'], engine_opts={'div_check': False},
          must_reach=['check:spin_drift'],
-         bounds='loop-free: the real _init_trajectory on a real shot, then spin_drift: all twists (right / left / none), lengths, diameters, weights, muzzle velocities, temperatures, pressures (or the Vacuum atmosphere), times',
+         bounds='loop-free: the real _init_trajectory on a real shot, then spin_drift: all twists (right / left / none), lengths, diameters, weights, muzzle velocities (catalogue, or corrected for powder temperature with sensitivity on), temperatures, pressures (or the Vacuum atmosphere), times',
          stubs=['pow(., 1/3) and pow(., 1.83) summarised; the oracle applies the same summaries; sqrt/exp inside Atmo summarised (not part of the obligation)'])
 def c05_spin(ctx, case):
     p, tc = pybc(), _tc()
@@ -113,7 +113,16 @@ def c05_spin(ctx, case):
     U = p.Unit
     dm = p.DragModel(0.3, p.TableG7, U.Grain(w), U.Inch(d), U.Inch(ln))
     atmo = p.Vacuum(U.Foot(0.0), U.Fahrenheit(tf)) if case == 'vacuum' else p.Atmo(U.Foot(0.0), U.InHg(pr), U.Fahrenheit(tf), 0.0)
-    calc._init_trajectory(p.Shot(p.Weapon(U.Inch(2.0), U.Inch(tw)), p.Ammo(dm, U.FPS(mv)), atmo=atmo))
+    ammo = p.Ammo(dm, U.FPS(mv))
+    if case == 'powder':
+        # powder sensitivity in force: the velocity the Miller formula sees is the LAUNCH velocity (what the first row reports), not the catalogue one
+        mod = ctx.real('temp_modifier', -2, 2)
+        pw = ctx.real('powder_c', -60, 60)
+        ctx.assume(1 + mod * (pw - 15) / 15 > 0.05)
+        ammo = p.Ammo(dm, U.FPS(mv), U.Celsius(15.0), mod, True)
+        atmo = p.Atmo(U.Foot(0.0), U.InHg(pr), U.Fahrenheit(tf), 0.0, U.Celsius(pw))
+        mv = mv * (1 + mod * (pw - 15) / 15)
+    calc._init_trajectory(p.Shot(p.Weapon(U.Inch(2.0), U.Inch(tw)), ammo, atmo=atmo))
     got = calc.spin_drift(time)
     if case in ('no_twist', 'no_length', 'no_diameter', 'vacuum'):
         ctx.check_eq('spin_drift', got, 0)
@@ -123,7 +132,7 @@ def c05_spin(ctx, case):
     L = ln / d
     sg = 30 * w / (T * T * d * d * d * L * (1 + L * L)) * M.pow(mv / 2800, 1.0 / 3.0) * ((tf + 460) / 519) * (29.92 / pr)
     ctx.check_eq('stability', calc.stability_coefficient, sg, rel=1e-9)
-    sign = 1 if case == 'right' else -1
+    sign = -1 if case == 'left' else 1
     want = sign * 1.25 * (sg + 1.2) * M.pow(time, 1.83) / 12
     ctx.check_eq('spin_drift', got, want, rel=1e-9, abs=1e-12)
     ctx.check('drift_sign_follows_twist', ctx.implies(time > 0, got * sign > 0))
